@@ -9,6 +9,7 @@ import (
 
 	lib "github.com/corazawaf/libinjection-go"
 
+	"verif/alpha"
 	"verif/fw"
 )
 
@@ -283,6 +284,35 @@ func init() {
 						aux := p.key()
 						p.variants(true, func(s string) { w.Item(s, aux) })
 					})
+				}, Eval: evalC03},
+			{Name: "chained-conditions", Space: "11 attack heads (numeric / quoted / parenthesised, 3 separators) followed by k further conditions for EVERY k in 0..300 (+ the neighbourhood of new integer constants), 5 chain units, with and without a trailing comment: a counter that wraps or a budget that runs out at one particular length", Share: 1,
+				Run: func(w *fw.W) {
+					heads := []string{"1 OR 1=1", "1/**/OR/**/1=1", "1 oR 1=1=1", "1' OR '1'='1", "1\" OR \"1\"=\"1", "1) OR (1=1", "-1 OR 2>1", "1\tOR\t1=1", "1 UNION SELECT 1", "1; DROP TABLE t", "x' OR 1=1"}
+					units := []string{" AND 1=1", " OR 1=1", "/**/AND/**/1=1", " AND 'a'='a'", " AND 1"}
+					ks := []int{}
+					for k := 0; k <= 300; k++ {
+						ks = append(ks, k)
+					}
+					for _, n := range alpha.NewInts() {
+						if n > 300 && n <= 70000 {
+							ks = append(ks, n-1, n, n+1)
+						}
+					}
+					type it struct{ s, aux string }
+					var items []it
+					for _, h := range heads {
+						for _, u := range units {
+							if strings.Contains(h, "'") != strings.Contains(u, "'") && strings.Contains(u, "'") {
+								continue
+							}
+							for _, k := range ks {
+								body := h + strings.Repeat(u, k)
+								aux := fmt.Sprintf("chain head=%q unit=%q k=%d", h, u, k)
+								items = append(items, it{body, aux}, it{body + " -- ", aux + " + comment"})
+							}
+						}
+					}
+					w.Each(len(items), func(i int) { w.Item(items[i].s, items[i].aux) })
 				}, Eval: evalC03},
 		},
 	})
